@@ -27,11 +27,14 @@ ALLCTX = ("c1", "c2", "c3", "c4")
 SVC = ("s1", "s2", "S3")           # "S3": a name with an upper-case letter (HA folds it, the script does not)
 EV = ("e1", "e2")
 ENT = ("a", "b", "c")
-ALL_ACTS = ["define", "del", "rebind", "push", "pop", "clear", "reload", "close", "unload", "boot", "import", "fail",
-            "fire", "set", "call", "out"]      # "fail" is not an action: it allows contents whose top level raises
+ALL_ACTS = ["define", "del", "rebind", "push", "pop", "clear", "reload", "close", "unload", "boot", "import", "fail", "tick",
+            "fire", "set", "call", "out"]      # "fail" is not an action: it allows contents whose top level raises;
+#                                                "tick" neither: a script statement may be followed by an occurrence
+#                                                produced by the same script before it yields to the event loop
+TICK_ACTS = ("define", "del", "rebind", "push", "pop", "clear")
 ALL_FLAGS = ["legacy-stop-before-first-run-leaks", "service-handler-not-repointed", "notify-del-returns-early", "dm-delayed-start-ignores-drop",
              "dm-start-order-arbitrary", "dm-service-owner-is-evaluator-name", "dm-service-multi-arg-rejected",
-             "session-import-module-not-started", "service-bookkeeping-keyed-by-spelling"]
+             "session-import-module-not-started", "service-bookkeeping-keyed-by-spelling", "dm-stop-only-scheduled"]
 # deviations repaired in the code under test: their generator masks are lifted (a rejection they explain is a
 # VIOLATION anyway: known_findings.jsonl lists them as fixed)
 LIFTED_MASKS = {"dm-service-multi-arg-rejected"}
@@ -64,9 +67,13 @@ WHAT = {
                                              "(pyscript.s1 / pyscript.S1) do not share a count - deleting or redefining one "
                                              "unregisters the service the other still declares - and a second context takes over "
                                              "a name another context owns",
+    "dm-stop-only-scheduled": "dm: when the last reference of a function goes away its stop is only scheduled: until the event "
+                              "loop runs it the function keeps its listeners, queues and services - an occurrence the same "
+                              "script produces right behind the deleting statement (event.fire, a call of its service) runs "
+                              "the deleted function",
     "unexplained": "recording is not a behaviour of the lifecycle model under any combination of the named deviations",
 }
-NODECL = {"st": [], "ev": [], "tt": [], "svc": [], "resp": "none", "sf": "stack", "alt": False}
+NODECL = {"st": [], "ev": [], "tt": [], "svc": [], "resp": "none", "sf": "stack", "alt": False, "dup": []}
 
 
 def spell(s, alt):
@@ -89,7 +96,9 @@ def parse_kv(s):
 
 def decorators(d):
     out = []
-    svc = [spell(x, d.get("alt")) for x in sorted(d["svc"])]
+    # a declaration is a MULTISET of names: the names in d["dup"] are listed twice (twice in one @service, or two
+    # stacked @service of the same name)
+    svc = [spell(x, d.get("alt")) for x in sorted(list(d["svc"]) + list(d.get("dup", ())))]
     if svc:
         if d["sf"] == "args":
             names = [", ".join('"pyscript.%s"' % s for s in svc)]
@@ -123,6 +132,10 @@ def prelude(c):
            "        L.append(vf_mk())\n"
            "    else:\n"
            '        D["k"] = vf_mk()\n\n') % c
+    # statements executed inside a running (triggered) function: the harness defines vf_tick() and fires the event
+    src += ('@event_trigger("vfrun_%s")\n'
+            "def vf_run(**kw):\n"
+            "    vf_tick()\n\n") % c
     if c != "c4":           # "import mx" executed inside a running function
         src += ('@event_trigger("vfimp_%s")\n'
                 "def vf_imp(**kw):\n"
@@ -131,7 +144,7 @@ def prelude(c):
 
 
 FAIL_SRC = "\nraise RuntimeError('vf: the top level of this file fails here')\n"
-HELPERS = ("vf_spawn", "vf_imp")
+HELPERS = ("vf_spawn", "vf_imp", "vf_run")
 
 
 def file_src(c, defs, g0, fail=False, im=False):
@@ -141,7 +154,8 @@ def file_src(c, defs, g0, fail=False, im=False):
 
 
 def norm_decl(d):
-    return d if "alt" in d else dict(d, alt=False)
+    d = d if "alt" in d else dict(d, alt=False)
+    return d if "dup" in d else dict(d, dup=[])
 
 
 def norm_act(a):
@@ -160,7 +174,45 @@ def norm_act(a):
         a.setdefault("f2", False)
     elif a["a"] == "import":
         a.setdefault("fail", False)
+    a["tick"] = bool(a.get("tick")) and a["a"] in TICK_ACTS
     return a
+
+
+def stmt_src(a):
+    """A structural script statement as source: (set-up, the statement, clean-up, global names it assigns)."""
+    k = a["a"]
+    if k == "define":
+        return "", func_src(a["n"], a["g"], a["d"]), "", []
+    if k == "del":
+        return "", "del %s\n" % a["n"], "", [a["n"]]
+    if k == "rebind":
+        return "", "%s = %s\n" % (a["n"], a["m"]), "", [a["n"]]
+    if k == "push":
+        fac = "def vf_mk():\n" + func_src("inner", a["g"], a["d"], "    ") + "    return inner\n"
+        return fac, ("L.append(vf_mk())\n" if a["where"] == "L" else 'D["k"] = vf_mk()\n'), "del vf_mk\n", []
+    if k == "pop":
+        return "", "del L[-1]\n", "", []
+    if k == "clear":
+        return "", "%s.clear()\n" % a["where"], "", []
+    raise ValueError(k)
+
+
+def occ_src(a, nset):
+    """An occurrence produced by a script: event.fire / state.set / service.call (result reported through vf.tres)."""
+    k = a["a"]
+    if k == "fire":
+        return 'event.fire("%s", p="1")\n' % a["e"]
+    if k == "set":
+        return 'state.set("pyscript.%s", "%d", x="p")\n' % (a["x"], nset)
+    if k == "call":
+        kws = "".join(', %s="%s"' % (k2, v) for k2, v in sorted(parse_kv(a["data"]).items()))
+        return ('try:\n    service.call("pyscript", "%s"%s)\n    vf.tres("none")\n'
+                'except Exception as vf_exc:\n    vf.tres(type(vf_exc).__name__)\n') % (a["s"], kws)
+    raise ValueError(k)
+
+
+def indent(src, by="    "):
+    return "".join(by + ln + "\n" for ln in src.splitlines())
 
 
 # ------------------------------------------------------------------------------------------------
@@ -239,9 +291,9 @@ def run_case(case):
             data = canon({k2: str(v) for k2, v in kw.items()})
             rec.append({"g": gen, "k": k, "x": x, "data": data})
             return data
-        Function.register({"vf.rc": rc, "vf.sinkdone": lambda: bool(base["sink"] and base["sink"][-1]["done"])})
-
-        state = {"unloaded": False, "nset": 0, "mtime": 2000, "cell": None}
+        state = {"unloaded": False, "nset": 0, "mtime": 2000, "cell": None, "tres": None}
+        Function.register({"vf.rc": rc, "vf.sinkdone": lambda: bool(base["sink"] and base["sink"][-1]["done"]),
+                           "vf.tres": lambda v: state.__setitem__("tres", v)})
 
         # the Jupyter session context: created as jupyter_kernel_start does, cells run as the kernel runs them
         if "c3" in ctxs:
@@ -299,7 +351,7 @@ def run_case(case):
                 act[c] = n
             stray = sum(len(q) for k, q in State.notify.items() if k not in {"pyscript." + x for x in ENT})
             stray += sum(len(q) for k, q in Event.notify.items()
-                         if legacy and k not in EV and not k.startswith(("vfspawn_", "vfimp_")))
+                         if legacy and k not in EV and not k.startswith(("vfspawn_", "vfimp_", "vfrun_")))
             stray += len(Event.notify) if not legacy else 0
             stray += len(Mqtt.notify) + len(Webhook.notify)
 
@@ -453,6 +505,30 @@ def run_case(case):
                 raise ValueError(k)
             return res
 
+        async def do_tick(a, o):
+            """The structural statement a and the occurrence o in ONE script, nothing in between: as top-level
+            statements of one source / cell (tvia = exec) or inside a running triggered function (tvia = run)."""
+            setup, stmt, cleanup, glob = stmt_src(a)
+            if o["a"] == "set":
+                state["nset"] += 1
+            state["tres"] = None
+            body2 = stmt + occ_src(o, state["nset"])
+            tvia = a["via"] if a["a"] == "push" else ("exec" if a["a"] == "define" else a.get("tvia", "exec"))
+            if tvia == "exec":
+                await ex(a["c"], setup + body2 + cleanup)
+            else:
+                gl = ("global %s\n" % ", ".join(glob)) if glob else ""
+                await ex(a["c"], setup + "def vf_tick():\n" + indent(gl + body2))
+                hass.bus.async_fire("vfrun_" + a["c"], {})
+                await quiesce()
+                await ex(a["c"], "del vf_tick\n" + cleanup)
+            res = {"k": "-", "g": 0, "data": "-"}
+            if o["a"] == "call":
+                t = state["tres"]
+                res["k"] = {"none": "none", "ServiceNotFound": "notfound", "KeyError": "notfound", "ServiceValidationError": "err",
+                            "HomeAssistantError": "err"}.get(t, "exc:%s" % t)
+            return res
+
         await quiesce()
         gc.collect()
         gc.freeze()
@@ -472,8 +548,17 @@ def run_case(case):
                 return await real()
             State.get_service_params = classmethod(slow_get_service_params)
             state["restore"] = lambda: setattr(State, "get_service_params", orig_gsp)
+        behind = None              # the statement of a "tick" step, executed together with the next step's occurrence
         for st in case["steps"]:
             a = st["act"] = norm_act(st["act"])
+            if a["tick"]:
+                if behind is not None:
+                    out["error"] = "two tick steps in a row"
+                behind = a
+                out["steps"].append({"act": a, "obs": {"skip": 1}})
+                continue
+            if behind is not None and a["a"] not in ("fire", "set", "call"):
+                out["error"] = "tick step followed by %s" % a["a"]
             if a.get("rush"):
                 try:
                     await do(a)
@@ -482,9 +567,10 @@ def run_case(case):
                 out["steps"].append({"act": a, "obs": {"skip": 1}})
                 continue
             try:
-                res = await do(a)
+                res = await (do(a) if behind is None else do_tick(behind, a))
             except Exception as exc:  # recorded, decided by the trace specification (no such behaviour)
                 res = {"k": "exc:" + type(exc).__name__, "g": 0, "data": str(exc)[:120]}
+            behind = None
             await quiesce()
             t1 = tables()
             gc.collect()
@@ -500,6 +586,8 @@ def run_case(case):
             obs["res"] = res
             obs["base"] = baseline()
             out["steps"].append({"act": a, "obs": obs})
+        if behind is not None:
+            out["error"] = "the recording ends with a tick step"
         gc.unfreeze()
         if state.get("restore"):
             state["restore"]()
@@ -580,12 +668,27 @@ def ctxs_of(consts):
     return sorted(set(json.loads(consts.get("Ctx", '{"c1", "c2", "c3"}').replace("{", "[").replace("}", "]"))) - {"c4"})
 
 
+def fix_ticks(acts, salt=0):
+    """A behaviour may end (depth bound, constraint cut) between a tick statement and its occurrence: that statement
+    is then an ordinary one.  How the pair is written - top-level statements or inside a running function - is a
+    rendering choice the model does not make (tvia); a fixed function of the position, so that replays agree."""
+    for i, a in enumerate(acts):
+        if a.get("tick") and (i + 1 >= len(acts) or acts[i + 1]["a"] not in ("fire", "set", "call")):
+            a["tick"] = False
+        if a.get("tick") and "tvia" not in a:
+            a["tvia"] = "run" if (i + salt) % 2 else "exec"
+    return acts
+
+
 def to_cases(behs, ctxs, prefix, subs=("dm", "legacy")):
     cases = []
     for i, b in enumerate(behs):
+        fix_ticks(b["acts"], i)
         for sub in subs:
             cases.append({"id": "%s%d/%s" % (prefix, i, sub), "sub": sub, "started": b["started"], "ctxs": ctxs,
-                          "steps": [{"act": a} for a in b["acts"]]})
+                          "steps": [{"act": dict(a)} for a in b["acts"]]})
+            if b.get("victims"):
+                cases[-1]["victims"] = b["victims"]
     return cases
 
 
@@ -612,6 +715,9 @@ DECL_POOL = [
     {"st": [], "ev": ["e1"], "tt": ["startup"], "svc": ["S3", "s2"], "resp": "none", "sf": "args"},
     {"st": [], "ev": [], "tt": [], "svc": ["s1"], "resp": "none", "sf": "stack", "alt": True},
     {"st": ["b"], "ev": [], "tt": [], "svc": ["S3", "s2"], "resp": "optional", "sf": "stack", "alt": True},
+    # one function declaring a name twice (a declaration is a multiset of names)
+    {"st": [], "ev": [], "tt": [], "svc": ["s1"], "resp": "none", "sf": "args", "dup": ["s1"]},
+    {"st": [], "ev": ["e1"], "tt": [], "svc": ["s1", "s2"], "resp": "optional", "sf": "stack", "dup": ["s2"]},
 ]
 def kw(k, t, v):
     return {"k": k, "t": t, "v": v}
@@ -679,6 +785,8 @@ def gen_random(r, nsteps, ctxs, mask):
                 continue                      # no two live declarations that spell one name differently
             if "dm-service-multi-arg-rejected" in mask and d["sf"] == "args" and len(d["svc"]) > 1:
                 continue
+            if "service-handler-not-repointed" in mask and d.get("dup"):
+                continue                      # (two declarations of one name, be it by one function)
             if via == "run" and (d["tt"] or len(d["svc"]) > 1):
                 continue
             if "dm-service-owner-is-evaluator-name" in mask and via == "run" and d["svc"]:
@@ -746,9 +854,34 @@ def gen_random(r, nsteps, ctxs, mask):
              "import"]
     weights = [18, 8, 5, 12, 4, 4, 7, 2, 1, 9, 9, 13, 3, 6]
     tries = 0
+
+    def behind(before, newgen=None):
+        """With probability 1/3 the script goes on, right behind the statement just appended, with an occurrence -
+        preferably one the generations that have just lost their last reference were waiting for."""
+        if not coin(0.34):
+            return
+        lost = [gens[g - 1]["d"] for g in sorted(before - referenced())]
+        hot = set(newgen["svc"]) if newgen else set()
+        only = {s for g in gens for s in g["d"]["svc"] if g["d"]["resp"] == "only"}
+        cands = []
+        for d in lost:
+            cands += [{"a": "fire", "e": e} for e in d["ev"]] + [{"a": "set", "x": n.split(".")[0]} for n in d["st"]]
+            cands += [{"a": "call", "s": sv, "data": r.choice(["-", "p=1", "p=2,q=x"]), "rr": False} for sv in d["svc"]]
+        if not cands or coin(0.25):
+            cands = [{"a": "fire", "e": e} for e in EV] + [{"a": "set", "x": x} for x in ENT]
+            cands += [{"a": "call", "s": sv, "data": "p=1", "rr": False} for sv in SVC]
+        # (a call right behind the statement: without response; not of a name the new definition declares)
+        cands = [o for o in cands if o["a"] != "call" or (o["s"] not in hot and o["s"] not in only)]
+        if not cands:
+            return
+        acts[-1]["tick"] = True
+        acts[-1]["tvia"] = r.choice(["exec", "run"])
+        acts.append(r.choice(cands))
+
     while len(acts) < nsteps and tries < nsteps * 30:
         tries += 1
         k = r.choices(kinds, weights)[0]
+        before = referenced()
         if k == "unload":
             if len(acts) < nsteps * 0.7:
                 continue
@@ -823,6 +956,7 @@ def gen_random(r, nsteps, ctxs, mask):
                 gens.append({"c": c, "d": d})
                 bind[c][n] = len(gens)
                 acts.append({"a": "define", "c": c, "n": n, "d": d, "g": len(gens)})
+                behind(before, d)
             elif k == "del":
                 bound = [n for n in names if bind[c][n]]
                 if not bound:
@@ -830,6 +964,7 @@ def gen_random(r, nsteps, ctxs, mask):
                 n = r.choice(bound)
                 bind[c][n] = 0
                 acts.append({"a": "del", "c": c, "n": n})
+                behind(before)
             elif k == "rebind":
                 pairs = [(n, m) for n in names for m in names if n != m and bind[c][m] and bind[c][n] != bind[c][m]]
                 if not pairs:
@@ -837,6 +972,7 @@ def gen_random(r, nsteps, ctxs, mask):
                 n, m = r.choice(pairs)
                 bind[c][n] = bind[c][m]
                 acts.append({"a": "rebind", "c": c, "n": n, "m": m})
+                behind(before)
             elif k == "push":
                 via = "run" if r.random() < 0.3 else "exec"
                 where = r.choice(["L", "D"])
@@ -851,11 +987,13 @@ def gen_random(r, nsteps, ctxs, mask):
                 else:
                     cont[c]["D"] = len(gens)
                 acts.append({"a": "push", "c": c, "d": d, "where": where, "via": via, "g": len(gens)})
+                behind(before, d)
             elif k == "pop":
                 if not cont[c]["L"]:
                     continue
                 cont[c]["L"].pop()
                 acts.append({"a": "pop", "c": c})
+                behind(before)
             elif k == "clear":
                 where = r.choice(["L", "D"])
                 if (where == "L" and not cont[c]["L"]) or (where == "D" and not cont[c]["D"]):
@@ -865,6 +1003,7 @@ def gen_random(r, nsteps, ctxs, mask):
                 else:
                     cont[c]["D"] = 0
                 acts.append({"a": "clear", "c": c, "where": where})
+                behind(before)
             elif k == "out":
                 acts.append({"a": "out", "c": c, "form": r.choice(["name", "call"]), "give": r.choice(OUT_GIVE)})
     return {"started": started, "acts": acts}
@@ -878,7 +1017,8 @@ def gen_random_case(seed, nsteps, ctxs, mask):
 # validation by TLC
 def slim(case):
     return {"id": case["id"], "sub": case["sub"], "started": case["started"], "ctxs": case["ctxs"],
-            "steps": [{"act": norm_act(s["act"]), "obs": s["obs"], "rush": bool(s["act"].get("rush"))} for s in case["steps"]]}
+            "steps": [{"act": norm_act(s["act"]), "obs": s["obs"], "rush": bool(s["act"].get("rush")),
+                       "tick": norm_act(s["act"])["tick"]} for s in case["steps"]]}
 
 
 def run_trace(ctx, cases, flagsets, label, workers=4):
@@ -1009,15 +1149,41 @@ def execute(ctx, cases, nproc=14):
     return [out[c["id"]] for c in cases]
 
 
+def decls_before(steps, i):
+    """The declarations evaluated by the steps before step i."""
+    out = []
+    for st in steps[:i]:
+        a = st["act"]
+        out += [a["d"]] if "d" in a else []
+        for k in ("defs", "mdefs", "d1", "d2"):
+            out += [df["d"] for df in a.get(k, [])]
+    return out
+
+
 def selftest(ctx, accepted_cases, want=24):
     """Corrupt accepted recordings (drop a run, flip a count, change a result): TLC must reject each."""
     bad = []
     kinds = set()
     r = random.Random(ctx.seed)
     for c in accepted_cases:
-        if len(bad) >= want and kinds >= {"import", "fail", "case"}:
+        if len(bad) >= want and kinds >= {"import", "fail", "case", "tick", "dup"}:
             break
         if any(s["act"].get("rush") for s in c["steps"]):
+            continue
+        # an occurrence right behind the deleting statement that runs the deleted function (or finds its service)
+        for v in c.get("victims", []):
+            o = c["steps"][v["step"]]["obs"]
+            if v["run"] in o["runs"]:
+                continue
+            c2 = copy.deepcopy(slim(c))
+            c2["id"] = "corrupt-tick%d/%s" % (v["step"], c["id"])
+            o2 = c2["steps"][v["step"]]["obs"]
+            o2["runs"] = sorted(o2["runs"] + [v["run"]], key=lambda x: (x["g"], x["k"], x["x"], x["data"]))
+            if v["run"]["k"] == "service":
+                o2["res"]["k"] = "none"
+            bad.append(c2)
+            kinds.add("tick")
+        if any(s["act"].get("tick") for s in c["steps"]):
             continue
         steps = c["steps"]
         idx = [i for i, s in enumerate(steps) if s["obs"]["runs"]]
@@ -1051,6 +1217,18 @@ def selftest(ctx, accepted_cases, want=24):
             s = [k for k, v in c2["steps"][idx[0]]["obs"]["has"].items() if v][0]
             c2["steps"][idx[0]]["obs"]["has"][s] = False
             bad.append(c2)
+        # a function that declared a name twice goes away and one registration stays behind
+        idx = [(i, sv) for i in range(1, len(steps)) for sv in SVC
+               if steps[i - 1]["obs"]["cnt"][sv] >= 2 and steps[i]["obs"]["cnt"][sv] == 0
+               and any(sv in df.get("dup", ()) for df in decls_before(steps, i))]
+        if idx:
+            i, sv = idx[0]
+            c2 = copy.deepcopy(slim(c))
+            c2["id"] = "corrupt-dup/" + c["id"]
+            o2, o1 = c2["steps"][i]["obs"], c2["steps"][i - 1]["obs"]
+            o2["cnt"][sv], o2["has"][sv], o2["own"][sv], o2["sr"][sv] = 1, True, o1["own"][sv], o1["sr"][sv]
+            bad.append(c2)
+            kinds.add("dup")
         # the module: an import that leaves the module's functions stopped / the module unloaded
         idx = [i for i, s in enumerate(steps) if s["act"]["a"] in ("import", "reload") and s["act"].get("fresh")
                and s["obs"]["act"]["c4"] > 0]
@@ -1097,8 +1275,9 @@ def selftest(ctx, accepted_cases, want=24):
 
 # ------------------------------------------------------------------------------------------------
 # directed witnesses of the known deviations (re-executed on every run)
-def D(st=(), ev=(), tt=(), svc=(), resp="none", sf="stack", alt=False):
-    return {"st": sorted(st), "ev": sorted(ev), "tt": sorted(tt), "svc": sorted(svc), "resp": resp, "sf": sf, "alt": alt}
+def D(st=(), ev=(), tt=(), svc=(), resp="none", sf="stack", alt=False, dup=()):
+    return {"st": sorted(st), "ev": sorted(ev), "tt": sorted(tt), "svc": sorted(svc), "resp": resp, "sf": sf, "alt": alt,
+            "dup": sorted(dup)}
 
 
 RACE_DECLS = [D(st=["a"], ev=["e1"], svc=["s1"]), D(st=["b"], ev=["e1"], svc=["s1"], resp="optional"),
@@ -1138,7 +1317,81 @@ def gen_race(r):
     return {"started": True, "acts": acts}
 
 
-def witnesses(race=True):
+# ------------------------------------------------------------------------------------------------
+# the statement that takes the last reference away, followed by the same script by an occurrence (tick)
+TICK_DECLS = [D(ev=["e1"]), D(ev=["e1"], svc=["s1"]), D(st=["a"], ev=["e2"]), D(st=["a", "b"], ev=["e1"], svc=["s2"], resp="optional"),
+              D(ev=["e1", "e2"], tt=["shutdown"]), D(st=["b"], svc=["S3"]), D(st=["c"], ev=["e1"], tt=["timer"]),
+              D(ev=["e2"], svc=["s1", "s2"], sf="args")]
+
+
+def occ_for(r, d, avoid=()):
+    """An occurrence the declaration d waits for (a call: without response, not of a name in avoid)."""
+    cands = [{"a": "fire", "e": e} for e in d["ev"]] + [{"a": "set", "x": n.split(".")[0]} for n in d["st"]]
+    cands += [{"a": "call", "s": sv, "data": r.choice(["-", "p=1", "p=2,q=x"]), "rr": False} for sv in d["svc"] if sv not in avoid]
+    return r.choice(cands)
+
+
+def victim_run(o, g):
+    """The run of generation g that the occurrence o would cause if g were still subscribed."""
+    if o["a"] == "fire":
+        return {"g": g, "k": "event", "x": o["e"], "data": "p=1"}
+    if o["a"] == "set":
+        return {"g": g, "k": "state", "x": o["x"], "data": "-"}
+    return {"g": g, "k": "service", "x": "-", "data": o["data"]}
+
+
+def gen_tick(r):
+    """Random member of the family: a function (generation 1) held by a global name / the dict slot / the list, next
+    to a bystander (generation 2) with the same triggers held elsewhere; ONE statement takes the last reference of
+    generation 1 away - del, rebinding over it, redefinition, a store over the dict slot, clear, pop - written at
+    top level or inside a running function, in a file, an app or a Jupyter session; the same script goes on at once
+    with an occurrence generation 1 was waiting for; then the same occurrence at quiescence, and unload."""
+    c = r.choice(["c1", "c2", "c3"])
+    d = r.choice(TICK_DECLS)
+    by = dict(d, svc=[], resp="none", sf="stack")       # the bystander: same triggers, no service
+    d3 = r.choice(TICK_DECLS)
+    hold = r.choice(["name", "name", "D", "L"])
+    tvia = r.choice(["exec", "run"])
+    acts = []
+    if by["ev"] or by["st"] or by["tt"]:
+        acts.append({"a": "define", "c": c, "n": "g", "d": by, "g": 1})
+    g1 = len(acts) + 1
+    new = None
+    if hold == "name":
+        acts.append({"a": "define", "c": c, "n": "f", "d": d, "g": g1})
+        how = r.choice(["del", "rebind", "redef"] if len(acts) == 2 else ["del", "redef"])
+        if how == "del":
+            acts.append({"a": "del", "c": c, "n": "f"})
+        elif how == "rebind":
+            acts.append({"a": "rebind", "c": c, "n": "f", "m": "g"})
+        else:
+            new = d3
+            acts.append({"a": "define", "c": c, "n": "f", "d": d3, "g": g1 + 1})
+    elif hold == "D":
+        acts.append({"a": "push", "c": c, "d": d, "where": "D", "via": "exec", "g": g1})
+        if r.random() < 0.5 and not d3["tt"]:
+            new = d3 = dict(d3, svc=d3["svc"][:1], sf="stack")
+            tvia = r.choice(["exec", "run"])
+            acts.append({"a": "push", "c": c, "d": d3, "where": "D", "via": tvia, "g": g1 + 1})
+        else:
+            acts.append({"a": "clear", "c": c, "where": "D"})
+    else:
+        acts.append({"a": "push", "c": c, "d": d, "where": "L", "via": "exec", "g": g1})
+        acts.append(r.choice([{"a": "pop", "c": c}, {"a": "clear", "c": c, "where": "L"}]))
+    # (a call: only of a name the new definition does not declare; a function that is merely redefined / replaced by
+    # a definition with the same service is then asked something else)
+    only_svc = not (d["ev"] or d["st"])
+    avoid = set(new["svc"]) if new else set()
+    if only_svc and set(d["svc"]) <= avoid:
+        return gen_tick(r)
+    o = occ_for(r, d, avoid)
+    acts[-1]["tick"] = True
+    acts[-1]["tvia"] = tvia
+    acts += [o, dict(o), {"a": "set", "x": "a"}, {"a": "fire", "e": "e1"}, {"a": "unload"}]
+    return {"started": True, "acts": acts, "victims": [{"step": len(acts) - 5, "run": victim_run(o, g1)}]}
+
+
+def witnesses(race=True, tick_all=True):
     s1 = D(svc=["s1"])
     multi = D(st=["a", "a.old", "b", "c"])
     ev = D(ev=["e1"])
@@ -1256,11 +1509,87 @@ def witnesses(race=True):
                                     {"a": "define", "c": "c1", "n": "f", "d": cap, "g": 2}, call1,
                                     {"a": "define", "c": "c2", "n": "g", "d": cap, "g": 3}, {"a": "del", "c": "c1", "n": "f"}, call1,
                                     {"a": "unload"}]))
+    # the statement that takes the last reference away, followed BY THE SAME SCRIPT - no yield to the event loop - by
+    # an occurrence the function was waiting for: "after which no occurrence runs the old function".  victims: the
+    # run the occurrence must NOT cause (used by the corruption self-test)
+    e1, e1s1, sa = D(ev=["e1"]), D(ev=["e1"], svc=["s1"]), D(st=["a"])
+    fire, seta = {"a": "fire", "e": "e1"}, {"a": "set", "x": "a"}
+    calls1 = {"a": "call", "s": "s1", "data": "p=1", "rr": False}
+    tick = {}
+    for tv in ("exec", "run"):
+        T = {"tick": True, "tvia": tv}
+        tick["del-fire-" + tv] = ([
+            {"a": "define", "c": "c1", "n": "f", "d": e1, "g": 1}, {"a": "define", "c": "c1", "n": "g", "d": e1, "g": 2},
+            dict({"a": "del", "c": "c1", "n": "f"}, **T), fire, fire, {"a": "unload"}], [(3, victim_run(fire, 1))])
+        tick["del-call-" + tv] = ([
+            {"a": "define", "c": "c2", "n": "f", "d": e1s1, "g": 1}, calls1, dict({"a": "del", "c": "c2", "n": "f"}, **T), calls1,
+            calls1, fire], [(3, victim_run(calls1, 1))])
+        tick["del-set-" + tv] = ([
+            {"a": "define", "c": "c1", "n": "f", "d": sa, "g": 1}, {"a": "define", "c": "c1", "n": "g", "d": D(st=["a", "b"]), "g": 2},
+            dict({"a": "del", "c": "c1", "n": "f"}, **T), seta, seta], [(3, victim_run(seta, 1))])
+        # a closure kept in the dict slot / the list
+        tick["clearD-fire-" + tv] = ([
+            {"a": "push", "c": "c1", "d": e1, "where": "D", "via": "exec", "g": 1},
+            {"a": "push", "c": "c1", "d": e1, "where": "L", "via": "exec", "g": 2},
+            dict({"a": "clear", "c": "c1", "where": "D"}, **T), fire, dict({"a": "pop", "c": "c1"}, **T), fire, fire],
+            [(3, victim_run(fire, 1)), (5, victim_run(fire, 2))])
+        tick["session-del-fire-" + tv] = ([
+            {"a": "define", "c": "c3", "n": "f", "d": D(ev=["e1"], st=["a"], svc=["s2"]), "g": 1},
+            dict({"a": "del", "c": "c3", "n": "f"}, **T), fire, seta, {"a": "call", "s": "s2", "data": "-", "rr": False}],
+            [(2, victim_run(fire, 1))])
+        # overwriting the last reference: rebinding the name to another function
+        tick["rebind-fire-" + tv] = ([
+            {"a": "define", "c": "c1", "n": "f", "d": e1, "g": 1}, {"a": "define", "c": "c1", "n": "g", "d": D(ev=["e2"]), "g": 2},
+            dict({"a": "rebind", "c": "c1", "n": "f", "m": "g"}, **T), fire, {"a": "fire", "e": "e2"}, fire], [(3, victim_run(fire, 1))])
+        # the shutdown trigger of the deleted function runs (once), the function itself does not
+        tick["del-shutdown-" + tv] = ([
+            {"a": "define", "c": "c1", "n": "f", "d": D(ev=["e1"], tt=["shutdown", "startup"]), "g": 1},
+            dict({"a": "del", "c": "c1", "n": "f"}, **T), fire, fire, {"a": "unload"}], [(2, victim_run(fire, 1))])
+    # redefinition / a store over the dict slot: the old function never runs; whether the new one already reacts is
+    # not specified
+    tick["redef-fire"] = ([
+        {"a": "define", "c": "c1", "n": "f", "d": e1, "g": 1},
+        {"a": "define", "c": "c1", "n": "f", "d": D(ev=["e1"], st=["b"], svc=["s2"]), "g": 2, "tick": True}, fire, fire],
+        [(2, victim_run(fire, 1))])
+    tick["redef-call"] = ([
+        {"a": "define", "c": "c1", "n": "f", "d": e1s1, "g": 1},
+        {"a": "define", "c": "c1", "n": "f", "d": D(ev=["e1"], svc=["s2"]), "g": 2, "tick": True}, calls1, calls1, fire],
+        [(2, victim_run(calls1, 1))])
+    for tv in ("exec", "run"):
+        tick["storeD-fire-" + tv] = ([
+            {"a": "push", "c": "c2", "d": e1, "where": "D", "via": "exec", "g": 1},
+            {"a": "push", "c": "c2", "d": D(ev=["e1"], st=["c"]), "where": "D", "via": tv, "g": 2, "tick": True}, fire, fire],
+            [(2, victim_run(fire, 1))])
     cases = []
+    for name, (acts, victims) in tick.items():
+        if tick_all or any(a["a"] == "call" for a in acts):        # (C12: the ones that call a service)
+            w.append(("tick-" + name, both, acts, True, [{"step": i, "run": v} for i, v in victims]))
+    # ONE function declaring a service name twice (a declaration is a multiset of names): @service("a.b", "a.b") /
+    # two stacked @service("a.b"): every entry is registered and counted, all of them go with the function
+    dupa = D(svc=["s1"], sf="args", dup=["s1"])
+    dups = D(svc=["s1", "s2"], ev=["e1"], resp="optional", dup=["s2"])
+    one = D(svc=["s1"])
+    calls2 = {"a": "call", "s": "s2", "data": "p=1", "rr": True}
+    w.append(("dup-del", both, [
+        {"a": "define", "c": "c1", "n": "f", "d": dupa, "g": 1}, calls1, {"a": "del", "c": "c1", "n": "f"}, calls1,
+        {"a": "define", "c": "c2", "n": "g", "d": one, "g": 2}, calls1, {"a": "unload"}]))
+    w.append(("dup-redef", both, [
+        {"a": "define", "c": "c1", "n": "f", "d": dups, "g": 1}, calls2, {"a": "define", "c": "c1", "n": "f", "d": e1, "g": 2},
+        calls2, calls1, {"a": "define", "c": "c3", "n": "h", "d": dups, "g": 3}, calls2, {"a": "close", "c": "c3"}, calls2]))
+    w.append(("dup-reload", both, [
+        {"a": "reload", "c": "c1", "defs": [{"n": "f", "d": dupa}, {"n": "g", "d": D(svc=["s2"], dup=["s2"])}], "g": 1}, calls1,
+        {"a": "reload", "c": "c1", "defs": [{"n": "f", "d": one}], "g": 3}, calls1, {"a": "call", "s": "s2", "data": "-", "rr": False},
+        {"a": "reload", "c": "c1", "defs": [], "g": 4}, calls1]))
+    w.append(("dup-two", both, [
+        {"a": "define", "c": "c1", "n": "f", "d": dupa, "g": 1}, {"a": "define", "c": "c1", "n": "g", "d": one, "g": 2}, calls1,
+        {"a": "del", "c": "c1", "n": "g"}, calls1, {"a": "push", "c": "c1", "d": dupa, "where": "D", "via": "exec", "g": 3}, calls1,
+        {"a": "del", "c": "c1", "n": "f"}, calls1, {"a": "clear", "c": "c1", "where": "D"}, calls1]))
     for name, subs, acts, *opt in w:
         for sub in subs:
             cases.append({"id": "w/%s/%s" % (name, sub), "sub": sub, "started": opt[0] if opt else True,
-                          "ctxs": ["c1", "c2", "c3"], "steps": [{"act": a} for a in acts], "witness": True})
+                          "ctxs": ["c1", "c2", "c3"], "steps": [{"act": dict(a)} for a in acts], "witness": True})
+            if len(opt) > 1:
+                cases[-1]["victims"] = opt[1]
     # consecutive positions go to consecutive workers (hash seeds 0..3 in turn): keep the four copies of the
     # hash-seed dependent witness adjacent per subsystem so that each subsystem meets every seed
     nd = [c for c in cases if "/notifydel" in c["id"]]
@@ -1352,7 +1681,8 @@ def nontrivial(c):
     return ran and len(tabs) > 1
 
 
-SELFTEST_FIRST = ["w/out/dm", "w/modimp-run-c1/dm", "w/loadimp/legacy", "w/failload/legacy", "w/failimport/dm", "w/case-redef/dm",
+SELFTEST_FIRST = ["w/tick-del-call-run/dm", "w/tick-del-call-exec/legacy", "w/tick-clearD-fire-run/legacy", "w/dup-del/legacy", "w/dup-two/dm",
+                  "w/out/dm", "w/modimp-run-c1/dm", "w/loadimp/legacy", "w/failload/legacy", "w/failimport/dm", "w/case-redef/dm",
                   "w/case-move/legacy", "w/failboot/dm"]
 
 
@@ -1423,8 +1753,9 @@ def main_common(ctx, prop, mc_jobs, sim_consts, pool, sizes):
     # (T) random longer sequences
     rnd_u = [gen_random_case(ctx.seed * 100000 + i, sizes["steps"], allctx, set()) for i in range(sizes["rnd"])]
     rnd_m = [gen_random_case(ctx.seed * 100000 + 50000 + i, sizes["steps"], allctx, set(ALL_FLAGS)) for i in range(sizes["rnd"])]
-    cases = witnesses(race=sizes.get("race", 0) > 0)
+    cases = witnesses(race=sizes.get("race", 0) > 0, tick_all=sizes.get("tick", 0) > 0)
     cases += to_cases([gen_race(random.Random(ctx.seed * 1000 + 77 + i)) for i in range(sizes.get("race", 0))], allctx, "X/u")
+    cases += to_cases([gen_tick(random.Random(ctx.seed * 1000 + 177 + i)) for i in range(sizes.get("tick", 0))], allctx, "X/t")
     cases += to_cases(beh_u, allctx, "R/u")
     cases += to_cases(rnd_u, allctx, "T/u")
     masked = to_cases(beh_m, allctx, "R/m") + to_cases(rnd_m, allctx, "T/m")
@@ -1437,12 +1768,12 @@ def main_common(ctx, prop, mc_jobs, sim_consts, pool, sizes):
     byid = {c["id"]: c for c in done}
     accepted, rejections = validate(
         ctx, done, "main",
-        beside=lambda acc: selftest(ctx, sorted([byid[i] for i in acc if len(byid[i]["steps"]) >= 4], key=selftest_rank)[:14]))
+        beside=lambda acc: selftest(ctx, sorted([byid[i] for i in acc if len(byid[i]["steps"]) >= 4], key=selftest_rank)[:19]))
     acc_cases = [byid[i] for i in accepted]
     # (under a code mutant the directed recordings may all be rejected: those are reported, not a machinery failure)
-    if not [r for r in rejections if not r["flags"]] and ctx.cov.get("selftest_corruption_kinds_of_round3") != ["case", "fail", "import"]:
-        raise MachineryFailure("selftest: no accepted recording with a module import / failed load / upper-case service name "
-                               "was corrupted (have %s)" % ctx.cov.get("selftest_corruption_kinds_of_round3"))
+    if not [r for r in rejections if not r["flags"]] and ctx.cov.get("selftest_corruption_kinds_of_round3") != ["case", "dup", "fail", "import", "tick"]:
+        raise MachineryFailure("selftest: no accepted recording with a module import / failed load / upper-case service name / "
+                               "occurrence right behind a deleting statement / name declared twice by one function was corrupted (have %s)" % ctx.cov.get("selftest_corruption_kinds_of_round3"))
     ctx.cov["phase_wall_s"] = {"model_checking_and_simulation": round(t_gen - ctx.t0, 1), "execution_on_real_code": round(t_exec - t_gen, 1),
                                "trace_validation": round(time.time() - t_exec, 1)}
     # coverage
@@ -1454,6 +1785,12 @@ def main_common(ctx, prop, mc_jobs, sim_consts, pool, sizes):
     ctx.cov["witness_recordings"] = len([c for c in done if c["id"].startswith("w/")])
     ctx.cov["evaluations"] = sum(len(observed(c)) for c in done)
     ctx.cov["rushed_pairs"] = sum(1 for c in done for s in c["steps"] if s["act"].get("rush"))
+    ctx.cov["occurrences_right_behind_a_statement"] = {}
+    for c in done:
+        for s, nx in zip(c["steps"], c["steps"][1:]):
+            if s["act"].get("tick"):
+                key = "%s(%s)+%s/%s" % (s["act"]["a"], "exec" if s["act"]["a"] == "define" else s["act"].get("via" if s["act"]["a"] == "push" else "tvia", "exec"), nx["act"]["a"], c["sub"])
+                ctx.cov["occurrences_right_behind_a_statement"][key] = ctx.cov["occurrences_right_behind_a_statement"].get(key, 0) + 1
     ctx.cov["distinct_nontrivial"] = len({case_key(c) for c in done if nontrivial(c)})
     ctx.cov["rule"] = ("one case = one action sequence (TLC-simulated behaviour of Lifecycle.tla, random longer sequence, or "
                        "directed witness) executed on the real integration in one subsystem (dm / legacy) with an observation "
@@ -1485,8 +1822,12 @@ def main_common(ctx, prop, mc_jobs, sim_consts, pool, sizes):
         ctx.sample({"id": c["id"], "steps": [{"act": s["act"], "runs": s["obs"]["runs"], "cnt": s["obs"]["cnt"],
                                                "sub": s["obs"]["sub"]} for s in observed(c)[:8]]})
     ctx.assumptions += [
-        "the code is sampled at quiescence only (settle + 10 ms of virtual time + gc.collect()); the window between a "
-        "deletion and the completion of the deferred stop is explored in the model (Eager = FALSE) and not required of the code",
+        "the code is sampled at quiescence (settle + 10 ms of virtual time + gc.collect()) and - tick pairs - by an occurrence "
+        "the same script produces right behind a structural statement, before it yields to the event loop; occurrences "
+        "from OTHER tasks between a deletion and the next loop iteration are explored in the model only (Eager = FALSE)",
+        "whether a function created by a statement already reacts to an occurrence produced right behind that statement is "
+        "not specified (the model allows both); a call right behind the statement is made without response and not of a "
+        "service name the new definition declares",
         "state trigger expressions are always true (or any-change names): every change of a watched entity runs the function; "
         "expression truth is C04's business",
         "cross-context service conflicts are generated only for declarations with one service; while HA is starting no "
